@@ -183,8 +183,10 @@ pub fn into_tokens(c: char, it: &mut Peekable<Chars>, state: &mut State) -> LexR
             let mut cur_offset = CaretPos::start();
             let mut cur_expr = String::new();
 
+            let mut closed = false;
             for c in it {
                 if !back_slash && build_cur_expr == 0 && c == '"' {
+                    closed = true;
                     break;
                 }
                 string.push(c);
@@ -199,7 +201,8 @@ pub fn into_tokens(c: char, it: &mut Peekable<Chars>, state: &mut State) -> LexR
                             cur_offset = state.pos.offset_pos(string.len() + 1);
                         }
                         build_cur_expr += 1;
-                    } else if c == '}' {
+                    } else if c == '}' && build_cur_expr > 0 {
+                        // a `}` that closes nothing is an ordinary character
                         build_cur_expr -= 1;
                     }
 
@@ -214,6 +217,11 @@ pub fn into_tokens(c: char, it: &mut Peekable<Chars>, state: &mut State) -> LexR
                 }
 
                 back_slash = c == '\\';
+            }
+
+            if !closed {
+                // the input ended inside the literal (or inside an unclosed `{` of it)
+                return Err(LexErr::new(state.pos, None, "unterminated string"));
             }
 
             if string.starts_with("\"\"") && string.ends_with("\"\"") {
